@@ -119,6 +119,23 @@ Theorem C07_compile_outcomes : forall src : list Z,
   end.
 Proof. exact compile_outcomes. Qed.
 
+(* ---- fuel of the whole pipeline, partial: `compile_fuel_ok src` (computable) says that the source holds no '$' (the lexer
+        premise from the initial state) and that the token program the lexer makes of it holds no loop token, no macro call
+        (TValue) and no PLAY at any level, nests Sub / tuplet blocks less deep than the depth fuel S (length src), and is at
+        every level shorter than the step fuel STEPS = 400000.  Then compile does not answer OutOfFuel.
+        Not covered: loops (the bound would be the cost of C05_fuel_bound for the parsed loop structure), macro calls and
+        PLAY (their text is lexed and executed at run time; `#A={c #A} #A` is unbounded user recursion). ---- *)
+Theorem C07_compile_fuel_partial : forall src : list Z, compile_fuel_ok src = true -> compile src <> OutOfFuel.
+Proof. exact compile_fuel_partial. Qed.
+(* the runner's half on its own: any token program within the bounds, from any song whose break flag is clear *)
+Theorem C07_exec_fuel_partial : forall (steps depth : nat) (toks : list tok) (s : song),
+  fuel_ok depth steps toks = true -> s_break_flag s = 0 -> exec_f depth steps toks (Ok s) <> OutOfFuel.
+Proof. exact exec_f_no_outoffuel. Qed.
+Example C07_compile_fuel_example :
+  let src := zs "l8 o5 c d {ceg}4 Sub{d4 r} 'ce' TR(2) y7,100 v.onTime(0,127,!1) Rhythm{bshb}" in
+  compile_fuel_ok src = true /\ exists bytes log, compile src = Ok (bytes, log).
+Proof. exact (conj compile_fuel_example compile_fuel_example_value). Qed.
+
 Print Assumptions C07_numerals_bounded.
 Print Assumptions C07_hex_numerals_bounded.
 Print Assumptions C07_saturation_is_cap.
@@ -136,3 +153,5 @@ Print Assumptions C07_compile_never_panics.
 Print Assumptions C07_lex_never_panics.
 Print Assumptions C07_exec_never_panics.
 Print Assumptions C07_compile_outcomes.
+Print Assumptions C07_compile_fuel_partial.
+Print Assumptions C07_exec_fuel_partial.
